@@ -150,6 +150,40 @@ theorem branch_lands_on_expansion (cfg : Cfg) (hT : TemplatesNoBranch cfg = true
     obtain ⟨pre, h1, h2⟩ := pad_at (cfg := cfg) (S := S) hpad he
     exact ⟨pre, by rw [hout]; exact h1, by rw [h2, ht, hlen]⟩
 
+/-- the case `t = 0` of `branch_lands_on_expansion`, spelled out: a branch to the FIRST instruction
+keeps target 0 (the expansion of instruction 0 starts the serialised output); it is not the end
+label, whatever Python's truthiness of `0` suggests (seeded change C08_7) -/
+theorem branch_to_line_zero (cfg : Cfg) (hT : TemplatesNoBranch cfg = true) (hW : InfosWF cfg = true)
+    (hpad : isDebug cfg.pad = false) (S out : List Instr) (h : transpile cfg S = .ok out)
+    (p : Nat) (x : Instr) (hx : S[p]? = some x) (hl : lineOf cfg x = some 0) :
+    ∃ cs, Chunks cfg [] [] S cs ∧
+      (∃ pre post, serialise out = pre ++ [setLine cfg x 0] ++ post ∧ pre.length = tposS cs p) ∧
+      (∃ c post, cs[0]? = some c ∧ serialise out = serialise (c.map (patchOf cfg S cs)) ++ post) := by
+  obtain ⟨cs, hc, _, _, h1, h2, _⟩ := branch_lands_on_expansion cfg hT hW hpad S out h p x 0 hx hl
+  have hpos : 0 < S.length := by
+    have := (List.getElem?_eq_some_iff.1 hx).1; omega
+  refine ⟨cs, hc, ?_, ?_⟩
+  · simpa [tposS_zero] using h1
+  · obtain ⟨c, pre, post, hc0, hs, hlen⟩ := h2 (by simpa using hpos)
+    simp only [Int.toNat_zero, tposS_zero] at hc0 hlen
+    have : pre = [] := List.eq_nil_of_length_eq_zero hlen
+    subst this
+    exact ⟨c, post, hc0, by simpa using hs⟩
+
+/-- the loop of seeded change C08_7 (head = line 0): the back edge keeps target 0 and no padding
+is appended, for both debug settings -/
+def loopHeadZero : List Instr := [
+  ⟨"core.SetInstruction", [.reg ⟨0, 1⟩, .imm 1]⟩, ⟨"core.SetInstruction", [.reg ⟨0, 2⟩, .imm 3]⟩,
+  ⟨"core.SetInstruction", [.reg ⟨2, 0⟩, .imm 1]⟩, ⟨"vanilla.GateTInstruction", [.reg ⟨2, 0⟩]⟩,
+  ⟨"core.AddInstruction", [.reg ⟨0, 0⟩, .reg ⟨0, 0⟩, .reg ⟨0, 1⟩]⟩,
+  ⟨"core.BltInstruction", [.reg ⟨0, 0⟩, .reg ⟨0, 2⟩, .imm 0]⟩,
+  ⟨"core.SetInstruction", [.reg ⟨2, 0⟩, .imm 1]⟩]
+
+theorem seeded_line_zero : ∀ d : Bool,
+    (transpile (Gen.cfg d false) loopHeadZero).toOption.map (fun o => (o[7]?, o.length)) =
+      some (some ⟨"core.BltInstruction", [.reg ⟨0, 0⟩, .reg ⟨0, 2⟩, .imm 0]⟩, 9) := by
+  decide +kernel
+
 /-- **Non-gate instructions appear exactly once and in order**: erasing the chunks that come from
 gates from the output chunks, and the gates from the input, gives equal lists up to the target
 patching `patchOf`. -/
